@@ -182,8 +182,10 @@ def run(ctx):
     ctx.ob("C13.R4", fi, bool(neg) and all(p.outcome[0] == "raise" and p.outcome[1].get("cls") == "MappingError" for p in neg),
            "FlagsEnum._encode refuses objects that are neither int, str nor dict", key="type refusal")
     acc = [(p, g) for p in paths if p.returns for g in p.of("GETITEM") if g["base"] == N.selfattr("flags") and not g.raised]
-    ok = len(acc) >= 2 and all(p.retval[0] == "bin" and p.retval[1] == "|" and g["res"] in p.retval[2:] and any(x[0] == "lv" for x in p.retval[2:]) for p, g in acc)
-    ctx.ob("C13.R4", fi, ok, "FlagsEnum._encode combines the labels of the string form and of the dict form with bitwise or (labels that share bits, or are repeated, give the union of the bits)", key="label union")
+    ok = len(acc) >= 2 and all(p.retval[0] == "bin" and p.retval[1] == "|" and g["res"] in p.retval[2:] and any(x[0] == "lv" and x[3] == N.const(0) for x in p.retval[2:]) for p, g in acc)
+    zero = [p for p in paths if p.returns and any(e.kind == "LOOPEND" and e["how"] == "zero" for e in p.events)]
+    ok = ok and bool(zero) and all(p.retval == N.const(0) for p in zero)
+    ctx.ob("C13.R4", fi, ok, "FlagsEnum._encode starts from 0 and combines the labels of the string form and of the dict form with bitwise or (labels that share bits, or are repeated, give the union of the bits; no label gives 0)", key="label union")
     flag_test(ctx, "C13.R4")
     # table construction
     fi, paths = own_method_paths(ctx, "Enum", "__init__")
